@@ -13,7 +13,8 @@ def run(ctx):
                        "distinct by (shape s-expression, request)")
     ctx.assumptions += ["gc/amd64 struct layout and reflect's field description are modelled (Model/Layout), validated against the compiler on every generated shape (C03 harness)",
                         "memory is a byte map; a value of type A is size(A) bytes; GC, write barriers and memory outside the guard areas are outside the model",
-                        "ForProduct1..9/ForSpectrum1..9 are modelled as one list function (deriveN) and exercised at all nine arities on every shape"]
+                        "ForProduct1..9/ForSpectrum1..9 are modelled as one list function (deriveN) and exercised at all nine arities on every shape",
+                        "derivation by type identifies a type by import path + name (GoType equality stands for String()== && AssignableTo); a fraction of the shapes lists distinct types that reflect prints identically, the decoy before and after the focus, of smaller, larger and equal size - see distribution.colliding_types"]
     S.apply_replay(ctx)
     S.regenerate(ctx)
     ctx.prove()
